@@ -1,5 +1,6 @@
 import Proofs.OriginRender
 import Proofs.NameOrder5
+import Proofs.ParseBasic
 /-! Parsing with an origin = parsing without, then relativizing every name of the sections (the OPT and TSIG owners
 are never relativized).  Holds for every wire, accepted or not. -/
 namespace Model
@@ -10,8 +11,7 @@ def relF (o n : Name) : Name := if isSubdomain n o then n.take (n.length - o.len
 /-- what the wire decoder hands out: legal and absolute -/
 def AbsWf (n : Name) : Prop := WfName n ∧ isAbs n = true
 
-theorem relativize_relF (o n : Name) (hn : WfName n) :
-    (match relativize n o with | .ok r => r | .error _ => n) = relF o n := by
+theorem relativize_ok (o n : Name) (hn : WfName n) : relativize n o = .ok (relF o n) := by
   unfold relativize relF sliceToNeg
   by_cases hs : isSubdomain n o = true
   · simp only [hs, if_true]
@@ -24,15 +24,21 @@ theorem relativize_relF (o n : Name) (hn : WfName n) :
       rw [this]
   · simp [hs]
 
+theorem relativize_relF (o n : Name) (hn : WfName n) :
+    (match relativize n o with | .ok r => r | .error _ => n) = relF o n := by
+  rw [relativize_ok o n hn]
+
 theorem relTo_relF (o n : Name) (ho : o ≠ []) (hn : WfName n) : relTo (some o) n = relF o n := by
   unfold relTo
   simp only [ho, if_false]
   exact relativize_relF o n hn
 
+theorem relTo_none (n : Name) : relTo none n = n := rfl
+
 theorem lowerName_take (n : Name) (k : Nat) : lowerName (n.take k) = (lowerName n).take k := by
   simp [lowerName, List.map_take]
 
-theorem lowerName_length (n : Name) : (lowerName n).length = n.length := by simp [lowerName]
+theorem lowerName_len (n : Name) : (lowerName n).length = n.length := by simp [lowerName]
 
 theorem isSubdomain_congr (a b o : Name) (h : lowerName a = lowerName b) : isSubdomain a o = isSubdomain b o := by
   have hab : isAbs a = isAbs b := by rw [← NameOrder.isAbs_lowerName a, h, NameOrder.isAbs_lowerName]
@@ -45,7 +51,7 @@ theorem isSubdomain_congr (a b o : Name) (h : lowerName a = lowerName b) : isSub
 theorem relF_congr (o a b : Name) (h : lowerName a = lowerName b) : lowerName (relF o a) = lowerName (relF o b) := by
   unfold relF
   rw [isSubdomain_congr a b o h]
-  have hl : a.length = b.length := by rw [← lowerName_length a, h, lowerName_length]
+  have hl : a.length = b.length := by rw [← lowerName_len a, h, lowerName_len]
   split
   · rw [lowerName_take, lowerName_take, h, hl]
   · exact h
@@ -135,5 +141,540 @@ theorem getName_absWf {w : Bytes} {endp cur : Nat} {n : Name} {c : Nat} (h : get
       obtain ⟨rfl, hw⟩ := wf_of_validate _ _ hv
       obtain ⟨ls, rfl⟩ := fromWireAux_abs _ _ _ _ _ _ _ _ hf
       exact ⟨hw, by simp [isAbs]⟩
+
+/-! ### the section index and `Rdataset.add` do not care -/
+
+def RData.names : RData → List Name
+  | .raw _ => []
+  | .name1 n => [n]
+  | .mx _ n => [n]
+  | .soa m r _ _ _ _ _ => [m, r]
+
+def RData.AbsWf (rd : RData) : Prop := ∀ n ∈ rd.names, Model.AbsWf n
+
+def RRset.AbsWf (r : RRset) : Prop := Model.AbsWf r.name ∧ ∀ rd ∈ r.rdatas, rd.AbsWf
+
+theorem beq_congr_iff {α : Type} [BEq α] [LawfulBEq α] {a b c d : α} (h : a = b ↔ c = d) : (a == b) = (c == d) := by
+  rw [Bool.eq_iff_iff, beq_iff_eq, beq_iff_eq]; exact h
+
+theorem RData.eqv_relF (o : Name) (ho : isAbs o = true) (a b : RData) (ha : a.AbsWf) (hb : b.AbsWf) :
+    (a.mapNames (relF o)).eqv (b.mapNames (relF o)) = a.eqv b := by
+  cases a <;> cases b <;> simp only [RData.mapNames, RData.eqv]
+  · rename_i x y
+    exact beq_congr_iff (relF_lower_iff o x y ho (ha x (by simp [RData.names])) (hb y (by simp [RData.names])))
+  · rename_i p x q y
+    rw [beq_congr_iff (relF_lower_iff o x y ho (ha x (by simp [RData.names])) (hb y (by simp [RData.names])))]
+  · rename_i m r _ _ _ _ _ m' r' _ _ _ _ _
+    rw [beq_congr_iff (relF_lower_iff o m m' ho (ha m (by simp [RData.names])) (hb m' (by simp [RData.names]))),
+      beq_congr_iff (relF_lower_iff o r r' ho (ha r (by simp [RData.names])) (hb r' (by simp [RData.names])))]
+
+theorem rdCovers_mapNames (f : Name → Name) (rdtype : Nat) (rd : RData) : rdCovers rdtype (rd.mapNames f) = rdCovers rdtype rd := by
+  cases rd <;> rfl
+
+theorem any_congr_mem {α : Type} (l : List α) (f g : α → Bool) (h : ∀ a ∈ l, f a = g a) : l.any f = l.any g := by
+  induction l with
+  | nil => rfl
+  | cons x rest ih =>
+    simp only [List.any_cons]
+    rw [h x (by simp), ih (fun a ha => h a (by simp [ha]))]
+
+theorem rrsetAdd_relF (o : Name) (ho : isAbs o = true) (rd : RData) (ttl : Nat) (r : RRset) (hr : r.AbsWf) (hrd : rd.AbsWf) :
+    rrsetAdd (rd.mapNames (relF o)) ttl (r.mapNames (relF o)) = (rrsetAdd rd ttl r).mapNames (relF o) := by
+  unfold rrsetAdd RRset.mapNames
+  simp only [List.length_map]
+  by_cases hsing : r.rdtype ∈ ConstsC03.singletons ∧ r.rdatas.length > 0
+  · simp only [hsing, and_self, if_true, List.any_nil, Bool.false_eq_true, if_false, List.nil_append, List.map_cons, List.map_nil]
+  · simp only [hsing, if_false]
+    have hany : (r.rdatas.map (RData.mapNames (relF o))).any (fun x => x.eqv (rd.mapNames (relF o))) =
+        r.rdatas.any (fun x => x.eqv rd) := by
+      rw [List.any_map]
+      exact any_congr_mem _ _ _ (fun a ha => RData.eqv_relF o ho a rd (hr.2 a ha) hrd)
+    rw [hany]
+    by_cases hh : r.rdatas.any (fun x => x.eqv rd) = true
+    · simp only [hh, if_true]
+    · simp [hh]
+
+theorem rrsetAdd_absWf (rd : RData) (ttl : Nat) (r : RRset) (hr : r.AbsWf) (hrd : rd.AbsWf) : (rrsetAdd rd ttl r).AbsWf := by
+  unfold rrsetAdd
+  refine ⟨hr.1, ?_⟩
+  simp only
+  intro x hx
+  by_cases hsing : r.rdtype ∈ ConstsC03.singletons ∧ r.rdatas.length > 0
+  · simp only [hsing, and_self, if_true, List.any_nil, Bool.false_eq_true, if_false, List.nil_append, List.mem_singleton] at hx
+    rw [hx]; exact hrd
+  · simp only [hsing, if_false] at hx
+    split at hx
+    · exact hr.2 x hx
+    · rcases List.mem_append.mp hx with h | h
+      · exact hr.2 x h
+      · simp at h; rw [h]; exact hrd
+
+theorem keyMatch_relF (o : Name) (ho : isAbs o = true) (name : Name) (c t cov : Nat) (del : Option Nat) (r : RRset)
+    (hn : Model.AbsWf name) (hr : Model.AbsWf r.name) :
+    keyMatch (relF o name) c t cov del (r.mapNames (relF o)) = keyMatch name c t cov del r := by
+  unfold keyMatch RRset.mapNames
+  simp only
+  rw [beq_congr_iff (relF_lower_iff o r.name name ho hr hn)]
+
+theorem updLast_map (g : RRset → RRset) (p p' : RRset → Bool) (f f' : RRset → RRset) (sec : List RRset)
+    (hp : ∀ r ∈ sec, p' (g r) = p r) (hf : ∀ r ∈ sec, f' (g r) = g (f r)) :
+    updLast p' f' (sec.map g) = (updLast p f sec).map (List.map g) := by
+  induction sec with
+  | nil => rfl
+  | cons r rest ih =>
+    simp only [List.map_cons, updLast]
+    rw [ih (fun x hx => hp x (by simp [hx])) (fun x hx => hf x (by simp [hx]))]
+    cases updLast p f rest with
+    | some rest' => rfl
+    | none =>
+      simp only [Option.map_none]
+      rw [hp r (by simp)]
+      by_cases h : p r = true
+      · simp [h, hf r (by simp)]
+      · simp [h]
+
+theorem updLast_all (P : RRset → Prop) (p : RRset → Bool) (f : RRset → RRset) (sec sec' : List RRset)
+    (h : updLast p f sec = some sec') (hs : ∀ r ∈ sec, P r) (hf : ∀ r, P r → P (f r)) : ∀ r ∈ sec', P r := by
+  induction sec generalizing sec' with
+  | nil => simp [updLast] at h
+  | cons x rest ih =>
+    simp only [updLast] at h
+    cases hu : updLast p f rest with
+    | some rest' =>
+      rw [hu] at h
+      simp only [Option.some.injEq] at h
+      subst h
+      intro r hr
+      rcases List.mem_cons.mp hr with e | e
+      · rw [e]; exact hs x (by simp)
+      · exact ih rest' hu (fun r hr => hs r (by simp [hr])) r e
+    | none =>
+      rw [hu] at h
+      simp only at h
+      split at h
+      · simp only [Option.some.injEq] at h
+        subst h
+        intro r hr
+        rcases List.mem_cons.mp hr with e | e
+        · rw [e]; exact hf x (hs x (by simp))
+        · exact hs r (by simp [e])
+      · cases h
+
+/-- `find_rrset` + `add` on a section whose names have been relativized -/
+theorem sectionAdd_relF (o : Name) (ho : isAbs o = true) (sec : List RRset) (name : Name) (c t cov : Nat)
+    (del : Option Nat) (fu : Bool) (rd : Option (RData × Nat)) (hs : ∀ r ∈ sec, r.AbsWf) (hn : Model.AbsWf name)
+    (hrd : ∀ x, rd = some x → x.1.AbsWf) :
+    sectionAdd (sec.map (RRset.mapNames (relF o))) (relF o name) c t cov del fu
+        (rd.map fun x => (x.1.mapNames (relF o), x.2)) =
+      (sectionAdd sec name c t cov del fu rd).map (RRset.mapNames (relF o)) ∧
+    ∀ r ∈ sectionAdd sec name c t cov del fu rd, r.AbsWf := by
+  have hfresh0 : (RRset.AbsWf { name := name, rdclass := c, rdtype := t, covers := cov, deleting := del }) :=
+    ⟨hn, by intro rd h; simp at h⟩
+  cases rd with
+  | none =>
+    simp only [sectionAdd, Option.map_none, id]
+    cases fu with
+    | true =>
+      simp only [if_true, List.map_append, List.map_cons, List.map_nil]
+      refine ⟨rfl, ?_⟩
+      intro r hr
+      rcases List.mem_append.mp hr with h | h
+      · exact hs r h
+      · simp at h; rw [h]; exact hfresh0
+    | false =>
+      simp only [Bool.false_eq_true, if_false]
+      rw [updLast_map (RRset.mapNames (relF o)) (keyMatch name c t cov del) _ id id sec
+        (fun r hr => keyMatch_relF o ho name c t cov del r hn (hs r hr).1) (fun r _ => rfl)]
+      cases hu : updLast (keyMatch name c t cov del) id sec with
+      | some sec' =>
+        refine ⟨rfl, updLast_all RRset.AbsWf _ _ sec sec' hu hs (fun r h => h)⟩
+      | none =>
+        simp only [Option.map_none, List.map_append, List.map_cons, List.map_nil]
+        refine ⟨rfl, ?_⟩
+        intro r hr
+        rcases List.mem_append.mp hr with h | h
+        · exact hs r h
+        · simp at h; rw [h]; exact hfresh0
+  | some x =>
+    obtain ⟨rd, ttl⟩ := x
+    have hrd' : rd.AbsWf := hrd (rd, ttl) rfl
+    simp only [sectionAdd, Option.map_some]
+    have hfr := rrsetAdd_relF o ho rd ttl { name := name, rdclass := c, rdtype := t, covers := cov, deleting := del } hfresh0 hrd'
+    have hfrw := rrsetAdd_absWf rd ttl _ hfresh0 hrd'
+    cases fu with
+    | true =>
+      simp only [if_true, List.map_append, List.map_cons, List.map_nil]
+      refine ⟨?_, ?_⟩
+      · rw [← hfr]; rfl
+      · intro r hr
+        rcases List.mem_append.mp hr with h | h
+        · exact hs r h
+        · simp at h; rw [h]; exact hfrw
+    | false =>
+      simp only [Bool.false_eq_true, if_false]
+      rw [updLast_map (RRset.mapNames (relF o)) (keyMatch name c t cov del) _ (rrsetAdd rd ttl) _ sec
+        (fun r hr => keyMatch_relF o ho name c t cov del r hn (hs r hr).1)
+        (fun r hr => rrsetAdd_relF o ho rd ttl r (hs r hr) hrd')]
+      cases hu : updLast (keyMatch name c t cov del) (rrsetAdd rd ttl) sec with
+      | some sec' =>
+        refine ⟨rfl, updLast_all RRset.AbsWf _ _ sec sec' hu hs (fun r h => rrsetAdd_absWf rd ttl r h hrd')⟩
+      | none =>
+        simp only [Option.map_none, List.map_append, List.map_cons, List.map_nil]
+        refine ⟨?_, ?_⟩
+        · rw [← hfr]; rfl
+        · intro r hr
+          rcases List.mem_append.mp hr with h | h
+          · exact hs r h
+          · simp at h; rw [h]; exact hfrw
+
+/-! ### the reader -/
+
+theorem parseRData_relF (o : Name) (ho : o ≠ []) (w : Bytes) (start endp rdtype : Nat) :
+    parseRData w start endp (some o) rdtype =
+      (match parseRData w start endp none rdtype with
+       | .ok rd => .ok (rd.mapNames (relF o))
+       | .error e => .error e) ∧
+    ∀ rd, parseRData w start endp none rdtype = .ok rd → rd.AbsWf := by
+  unfold parseRData
+  cases shapeOf rdtype with
+  | raw =>
+    simp only
+    refine ⟨rfl, ?_⟩
+    intro rd h; cases h; intro n hn; simp [RData.names] at hn
+  | name1 =>
+    simp only
+    cases hg : getName w endp start with
+    | error e => simp
+    | ok p =>
+      obtain ⟨n, c⟩ := p
+      have hw := getName_absWf hg
+      simp only
+      by_cases hc : c ≠ endp
+      · simp [hc]
+      · simp only [hc, if_false, relTo_relF o n ho hw.1, relTo_none, RData.mapNames, true_and]
+        intro rd h; cases h; intro x hx; simp [RData.names] at hx; rw [hx]; exact hw
+  | mx =>
+    simp only
+    by_cases hl : endp - start < 2
+    · simp [hl]
+    · simp only [hl, if_false]
+      cases hg : getName w endp (start + 2) with
+      | error e => simp
+      | ok p =>
+        obtain ⟨n, c⟩ := p
+        have hw := getName_absWf hg
+        simp only
+        by_cases hc : c ≠ endp
+        · simp [hc]
+        · simp only [hc, if_false, relTo_relF o n ho hw.1, relTo_none, RData.mapNames, true_and]
+          intro rd h; cases h; intro x hx; simp [RData.names] at hx; rw [hx]; exact hw
+  | soa =>
+    simp only
+    cases hg : getName w endp start with
+    | error e => simp
+    | ok p =>
+      obtain ⟨m, c1⟩ := p
+      have hwm := getName_absWf hg
+      simp only
+      cases hg2 : getName w endp c1 with
+      | error e => simp
+      | ok p2 =>
+        obtain ⟨r, c2⟩ := p2
+        have hwr := getName_absWf hg2
+        simp only
+        by_cases h1 : endp - c2 < 20
+        · simp [h1]
+        · by_cases h2 : c2 + 20 ≠ endp
+          · simp [h1, h2]
+          · simp only [h1, h2, if_false, relTo_relF o m ho hwm.1, relTo_relF o r ho hwr.1, relTo_none, RData.mapNames, true_and]
+            intro rd h; cases h; intro x hx; simp [RData.names] at hx
+            rcases hx with hx | hx
+            · rw [hx]; exact hwm
+            · rw [hx]; exact hwr
+
+theorem parseRRHeader_map (g : RRset → RRset) (hg : ∀ r, (g r).rdclass = r.rdclass) (upd : Bool) (zone : List RRset)
+    (sec c t : Nat) : parseRRHeader upd (zone.map g) sec c t = parseRRHeader upd zone sec c t := by
+  cases zone with
+  | nil => rfl
+  | cons z rest =>
+    simp only [parseRRHeader, List.map_cons, hg]
+    simp
+
+def PState.mapNames (f : Name → Name) (st : PState) : PState :=
+  { st with q := st.q.map (RRset.mapNames f), an := st.an.map (RRset.mapNames f),
+            au := st.au.map (RRset.mapNames f), ad := st.ad.map (RRset.mapNames f) }
+
+def PState.AbsWf (st : PState) : Prop :=
+  (∀ r ∈ st.q, r.AbsWf) ∧ (∀ r ∈ st.an, r.AbsWf) ∧ (∀ r ∈ st.au, r.AbsWf) ∧ (∀ r ∈ st.ad, r.AbsWf)
+
+theorem PState.section_mapNames (f : Name → Name) (st : PState) (sec : Nat) :
+    (st.mapNames f).section sec = (st.section sec).map (RRset.mapNames f) := by
+  unfold PState.section PState.mapNames
+  split
+  · rfl
+  · split
+    · rfl
+    · split <;> rfl
+
+theorem PState.section_absWf (st : PState) (h : st.AbsWf) (sec : Nat) : ∀ r ∈ st.section sec, r.AbsWf := by
+  unfold PState.section
+  split
+  · exact h.1
+  · split
+    · exact h.2.1
+    · split
+      · exact h.2.2.1
+      · exact h.2.2.2
+
+theorem PState.setSection_mapNames (f : Name → Name) (st : PState) (sec : Nat) (l : List RRset) :
+    (st.setSection sec l).mapNames f = (st.mapNames f).setSection sec (l.map (RRset.mapNames f)) := by
+  unfold PState.setSection PState.mapNames
+  split
+  · rfl
+  · split
+    · rfl
+    · split <;> rfl
+
+theorem PState.setSection_absWf (st : PState) (h : st.AbsWf) (sec : Nat) (l : List RRset) (hl : ∀ r ∈ l, r.AbsWf) :
+    (st.setSection sec l).AbsWf := by
+  unfold PState.setSection
+  split
+  · exact ⟨hl, h.2⟩
+  · split
+    · exact ⟨h.1, hl, h.2.2⟩
+    · split
+      · exact ⟨h.1, h.2.1, hl, h.2.2.2⟩
+      · exact ⟨h.1, h.2.1, h.2.2.1, hl⟩
+
+theorem parseQuestion_relF (cfg : PCfg) (o : Name) (ho : isAbs o = true) (hc : cfg.origin = none) (upd : Bool) (w : Bytes)
+    (st : PState) (hst : st.AbsWf) :
+    parseQuestion { cfg with origin := some o } upd w (st.mapNames (relF o)) =
+      (match parseQuestion cfg upd w st with
+       | .ok s => .ok (s.mapNames (relF o))
+       | .error e => .error e) ∧
+    ∀ s, parseQuestion cfg upd w st = .ok s → s.AbsWf := by
+  have hone : o ≠ [] := NameOrder.ne_nil_of_isAbs ho
+  unfold parseQuestion
+  have e1 : (st.mapNames (relF o)).cur = st.cur := rfl
+  have e2 : (st.mapNames (relF o)).q = st.q.map (RRset.mapNames (relF o)) := rfl
+  simp only [e1, e2, hc]
+  cases hg : getName w w.length st.cur with
+  | error e => simp
+  | ok p =>
+    obtain ⟨n, c⟩ := p
+    have hw := getName_absWf hg
+    simp only
+    by_cases hl : w.length - c < 4
+    · simp [hl]
+    · simp only [hl, if_false]
+      rw [parseRRHeader_map (RRset.mapNames (relF o)) (fun r => rfl)]
+      cases parseRRHeader upd st.q 0 (beVal (slice w (c + 2) 2)) (beVal (slice w c 2)) with
+      | error e => simp
+      | ok t =>
+        obtain ⟨rc, _, _⟩ := t
+        simp only
+        obtain ⟨h1, h2⟩ := sectionAdd_relF o ho st.q n rc (beVal (slice w c 2)) 0 none true none hst.1 hw
+          (by intro x hx; cases hx)
+        rw [relTo_relF o n hone hw.1]
+        simp only [Option.map_none] at h1
+        refine ⟨?_, ?_⟩
+        · simp only [relTo_none, PState.mapNames]
+          rw [h1]
+        · intro s hs
+          cases hs
+          exact ⟨h2, hst.2⟩
+
+theorem parseRR_relF (cfg : PCfg) (o : Name) (ho : isAbs o = true) (hc : cfg.origin = none) (upd : Bool) (w : Bytes)
+    (sec count i : Nat) (st : PState) (hst : st.AbsWf) :
+    parseRR { cfg with origin := some o } upd w sec count i (st.mapNames (relF o)) =
+      (match parseRR cfg upd w sec count i st with
+       | .ok s => .ok (s.mapNames (relF o))
+       | .error e => .error e) ∧
+    ∀ s, parseRR cfg upd w sec count i st = .ok s → s.AbsWf := by
+  have hone : o ≠ [] := NameOrder.ne_nil_of_isAbs ho
+  unfold parseRR
+  have e1 : (st.mapNames (relF o)).cur = st.cur := rfl
+  have e2 : (st.mapNames (relF o)).q = st.q.map (RRset.mapNames (relF o)) := rfl
+  have e3 : (st.mapNames (relF o)).opt = st.opt := rfl
+  simp only [e1, e2, e3, hc, PState.section_mapNames]
+  cases hg : getName w w.length st.cur with
+  | error e => simp
+  | ok p =>
+    obtain ⟨n, c⟩ := p
+    have hw := getName_absWf hg
+    simp only
+    rw [relativize_ok o n hw.1]
+    simp only
+    by_cases hl : w.length - c < 10
+    · simp [hl]
+    · simp only [hl, if_false]
+      rw [parseRRHeader_map (RRset.mapNames (relF o)) (fun r => rfl)]
+      generalize (if beVal (slice w c 2) = ConstsC03.typeOPT ∨ beVal (slice w c 2) = ConstsC03.typeTSIG then
+          match parseSpecialHeader sec count i n (beVal (slice w (c + 2) 2)) (beVal (slice w c 2)) st.opt.isSome with
+          | Except.error e => Except.error e
+          | Except.ok _ => Except.ok (beVal (slice w (c + 2) 2), none, false)
+        else parseRRHeader upd st.q sec (beVal (slice w (c + 2) 2)) (beVal (slice w c 2))) = hdr
+      cases hdr with
+      | error e => simp
+      | ok t =>
+        obtain ⟨rc, del, empty⟩ := t
+        simp only
+        cases empty with
+        | true =>
+          simp only [if_true]
+          by_cases hr : beVal (slice w (c + 8) 2) > 0
+          · simp [hr]
+          · simp only [hr, if_false]
+            obtain ⟨h1, h2⟩ := sectionAdd_relF o ho (st.section sec) n rc (beVal (slice w c 2)) 0 del
+              (cfg.oneRRPerRRset || upd) none (st.section_absWf hst sec) hw (by intro x hx; cases hx)
+            simp only [Option.map_none] at h1
+            refine ⟨?_, ?_⟩
+            · rw [h1]
+              exact congrArg Except.ok (PState.setSection_mapNames (relF o) { st with cur := c + 10 } sec _).symm
+            · intro s hs
+              cases hs
+              exact PState.setSection_absWf { st with cur := c + 10 } hst sec _ h2
+        | false =>
+          simp only [Bool.false_eq_true, if_false]
+          by_cases hr : beVal (slice w (c + 8) 2) > w.length - (c + 10)
+          · simp [hr]
+          · simp only [hr, if_false]
+            by_cases hopt : beVal (slice w c 2) = ConstsC03.typeOPT
+            · simp only [hopt, if_true]
+              cases parseOptions w (c + 10 + beVal (slice w (c + 8) 2)) (beVal (slice w (c + 8) 2)) (c + 10) with
+              | error e => simp
+              | ok opts =>
+                refine ⟨rfl, ?_⟩
+                intro s hs; cases hs; exact hst
+            · simp only [hopt, if_false]
+              by_cases hts : beVal (slice w c 2) = ConstsC03.typeTSIG
+              · simp only [hts, if_true]
+                cases parseTsigRData w (c + 10) (c + 10 + beVal (slice w (c + 8) 2)) n with
+                | error e => simp
+                | ok t =>
+                  simp only
+                  by_cases httl : beVal (slice w (c + 4) 4) ≠ 0
+                  · simp [httl]
+                  · simp only [httl, if_false]
+                    cases cfg.hasKey with
+                    | false => simp
+                    | true =>
+                      refine ⟨rfl, ?_⟩
+                      intro s hs; cases hs; exact hst
+              · simp only [hts, if_false]
+                obtain ⟨p1, p2⟩ := parseRData_relF o hone w (c + 10) (c + 10 + beVal (slice w (c + 8) 2)) (beVal (slice w c 2))
+                rw [p1]
+                cases hp : parseRData w (c + 10) (c + 10 + beVal (slice w (c + 8) 2)) none (beVal (slice w c 2)) with
+                | error e => simp
+                | ok rd =>
+                  simp only
+                  have hrd := p2 rd hp
+                  obtain ⟨h1, h2⟩ := sectionAdd_relF o ho (st.section sec) n rc (beVal (slice w c 2))
+                    (rdCovers (beVal (slice w c 2)) rd) del (cfg.oneRRPerRRset || upd)
+                    (some (rd, if beVal (slice w (c + 4) 4) > ConstsC03.ttlClampAbove then 0 else beVal (slice w (c + 4) 4)))
+                    (st.section_absWf hst sec) hw (by intro x hx; cases hx; exact hrd)
+                  simp only [Option.map_some] at h1
+                  refine ⟨?_, ?_⟩
+                  · rw [rdCovers_mapNames, h1]
+                    exact congrArg Except.ok (PState.setSection_mapNames (relF o) { st with cur := c + 10 + beVal (slice w (c + 8) 2) } sec _).symm
+                  · intro s hs
+                    cases hs
+                    exact PState.setSection_absWf { st with cur := c + 10 + beVal (slice w (c + 8) 2) } hst sec _ h2
+
+theorem parseQuestions_relF (cfg : PCfg) (o : Name) (ho : isAbs o = true) (hc : cfg.origin = none) (upd : Bool) (w : Bytes)
+    (k : Nat) : ∀ (st : PState), st.AbsWf →
+    parseQuestions { cfg with origin := some o } upd w k (st.mapNames (relF o)) =
+      (match parseQuestions cfg upd w k st with
+       | .ok s => .ok (s.mapNames (relF o))
+       | .error e => .error e) ∧
+    ∀ s, parseQuestions cfg upd w k st = .ok s → s.AbsWf := by
+  induction k with
+  | zero =>
+    intro st hst
+    refine ⟨rfl, ?_⟩
+    intro s hs; cases hs; exact hst
+  | succ k ih =>
+    intro st hst
+    simp only [parseQuestions]
+    obtain ⟨h1, h2⟩ := parseQuestion_relF cfg o ho hc upd w st hst
+    rw [h1]
+    cases hp : parseQuestion cfg upd w st with
+    | error e => simp
+    | ok s1 => exact ih s1 (h2 s1 hp)
+
+theorem parseSection_relF (cfg : PCfg) (o : Name) (ho : isAbs o = true) (hc : cfg.origin = none) (upd : Bool) (w : Bytes)
+    (sec count k : Nat) : ∀ (i : Nat) (st : PState), st.AbsWf →
+    parseSection { cfg with origin := some o } upd w sec count k i (st.mapNames (relF o)) =
+      (match parseSection cfg upd w sec count k i st with
+       | .ok s => .ok (s.mapNames (relF o))
+       | .error e => .error e) ∧
+    ∀ s, parseSection cfg upd w sec count k i st = .ok s → s.AbsWf := by
+  induction k with
+  | zero =>
+    intro i st hst
+    refine ⟨rfl, ?_⟩
+    intro s hs; cases hs; exact hst
+  | succ k ih =>
+    intro i st hst
+    simp only [parseSection]
+    obtain ⟨h1, h2⟩ := parseRR_relF cfg o ho hc upd w sec count i st hst
+    rw [h1]
+    cases hp : parseRR cfg upd w sec count i st with
+    | error e => simp
+    | ok s1 => exact ih (i + 1) s1 (h2 s1 hp)
+
+def Message.mapNames (f : Name → Name) (m : Message) : Message :=
+  { m with q := m.q.map (RRset.mapNames f), an := m.an.map (RRset.mapNames f),
+           au := m.au.map (RRset.mapNames f), ad := m.ad.map (RRset.mapNames f) }
+
+/-- `from_wire(origin=o)` is `from_wire()` followed by relativizing the owner names and the names inside the RDATA of
+the four sections — for every wire, accepted or not; the OPT and TSIG owner names are left absolute -/
+theorem parseMessage_relF (cfg : PCfg) (o : Name) (ho : isAbs o = true) (hc : cfg.origin = none) (w : Bytes) :
+    parseMessage { cfg with origin := some o } w =
+      match parseMessage cfg w with
+      | .ok m => .ok { m.mapNames (relF o) with origin := some o }
+      | .error e => .error e := by
+  unfold parseMessage
+  by_cases hl : w.length < 12
+  · simp [hl]
+  simp only [hl, if_false]
+  have h0 : PState.AbsWf { cur := 12 } := by
+    refine ⟨?_, ?_, ?_, ?_⟩ <;> intro r hr <;> cases hr
+  obtain ⟨a1, a2⟩ := parseQuestions_relF cfg o ho hc (isUpdate (beVal (slice w 2 2))) w (beVal (slice w 4 2)) _ h0
+  have e0 : PState.mapNames (relF o) { cur := 12 } = ({ cur := 12 } : PState) := rfl
+  rw [e0] at a1
+  rw [a1]
+  cases hq : parseQuestions cfg (isUpdate (beVal (slice w 2 2))) w (beVal (slice w 4 2)) { cur := 12 } with
+  | error e => rfl
+  | ok s1 =>
+    simp only
+    obtain ⟨b1, b2⟩ := parseSection_relF cfg o ho hc (isUpdate (beVal (slice w 2 2))) w 1 (beVal (slice w 6 2))
+      (beVal (slice w 6 2)) 0 s1 (a2 s1 hq)
+    rw [b1]
+    cases h1 : parseSection cfg (isUpdate (beVal (slice w 2 2))) w 1 (beVal (slice w 6 2)) (beVal (slice w 6 2)) 0 s1 with
+    | error e => rfl
+    | ok s2 =>
+      simp only
+      obtain ⟨c1, c2⟩ := parseSection_relF cfg o ho hc (isUpdate (beVal (slice w 2 2))) w 2 (beVal (slice w 8 2))
+        (beVal (slice w 8 2)) 0 s2 (b2 s2 h1)
+      rw [c1]
+      cases h2 : parseSection cfg (isUpdate (beVal (slice w 2 2))) w 2 (beVal (slice w 8 2)) (beVal (slice w 8 2)) 0 s2 with
+      | error e => rfl
+      | ok s3 =>
+        simp only
+        obtain ⟨d1, d2⟩ := parseSection_relF cfg o ho hc (isUpdate (beVal (slice w 2 2))) w 3 (beVal (slice w 10 2))
+          (beVal (slice w 10 2)) 0 s3 (c2 s3 h2)
+        rw [d1]
+        cases h3 : parseSection cfg (isUpdate (beVal (slice w 2 2))) w 3 (beVal (slice w 10 2)) (beVal (slice w 10 2)) 0 s3 with
+        | error e => rfl
+        | ok s4 =>
+          simp only
+          have ecur : (s4.mapNames (relF o)).cur = s4.cur := rfl
+          rw [ecur]
+          by_cases ht : (!cfg.ignoreTrailing) = true ∧ w.length - s4.cur ≠ 0
+          · rw [if_pos ht, if_pos ht]
+          · rw [if_neg ht, if_neg ht]
+            simp only [hc]
+            rfl
 
 end Model
